@@ -203,6 +203,22 @@ def get_tests(rng):
     return out
 
 
+GET_SIZES = [4 << 10, 8 << 10, 16 << 10, 64 << 10]
+
+
+def big_get_tests(rng):
+    """Connect GET cases whose request message is large ("arbitrary payload bytes"): 4, 8, 16 and 64 KiB of request data, i.e.
+    query strings of 5.5 to 117 KiB (the message travels base64url-encoded in the URL; under the json codec it is base64 inside
+    the JSON first).  Whether a call goes out as GET is decided by use_get_http_method alone, never by the size of the URL
+    (C02_Model: sent_as_get / documented_get_setup).  With data and with an error; each runs under {HTTP/1.1, h2c} x {proto, json}"""
+    out = []
+    for i, n in enumerate(GET_SIZES):
+        t = wf_test(rng, "get-%dk" % (n >> 10), get=True, err=(i % 2 == 1), defs="first")
+        t[3][0][2] = bytes(rng.randrange(256) for _ in range(n))
+        out.append(t)
+    return out
+
+
 def first_def(t):
     rs = t_reqs(t)
     if rs and rs[0][3]:
@@ -361,10 +377,11 @@ def targeted_tests(rng, gs):
 class C02(Prop):
     id = "C02"
     props = "C02_Props"
-    coq_files = ("Base", "C03_Consts", "C03_Model", "C03_Spec", "C03_Proofs", "C02_Model", "C02_Spec", "C02_Proofs", "C02_Props")
+    coq_files = ("Base", "C03_Consts", "C03_Model", "C03_Spec", "C03_Proofs", "C02_Consts", "C02_Model", "C02_Spec", "C02_Proofs", "C02_Props")
     models = ("C02_Model",)
     packages = {"cc": "internal/app/connectconformance"}
     kinds = {"c02.expect": "cc", "c02.live": "cc"}
+    consts = ("cc",)
     go_timeout = 1500
     rule = ("c02.expect: every (stream type x 0-3 requests x 0-3 responses x error x definition present) shape plus seeded random "
             "suites of 1-4 cases, a third of them outside the well-formed fragment (wrong message type, stream type 0/6/7, no name, "
@@ -378,13 +395,14 @@ class C02(Prop):
             "plus three targeted batches per peer pair on every run (request/response counts incl. zero and 20 requests; overlapping "
             "names for unary and client-stream with data and with error; -bin names as request header, response header and trailer at "
             "once; definitions on later requests only; every error code 1-16 with 0-3 details), two Connect GET cases in every batch of "
-            "the reference pair and a batch of 13 GET shapes (each under {HTTP/1.1,h2c} x {proto,json} in ONE library), run by the real runTestCasesForServer "
+            "the reference pair, a batch of 13 GET shapes and a batch of GET cases with 4, 8, 16 and 64 KiB of request data (URLs of 5.5-117 KiB; each under {HTTP/1.1,h2c} x {proto,json} in ONE library), run by the real runTestCasesForServer "
             "against the in-process reference server / grpc-go server with the reference / grpc-go client under {HTTP/1.1,h2c} x 3 "
             "protocols x {proto,json} x {identity,gzip} (thorough: six compressions, TLS); compared: verdict (pass) and projected "
             "observed result (metadata projected on every name ANY request's definition declares; echoed query parameters projected on "
             "encoding / connect / compression). "
             "non-trivial = at least one permutation ran / at least one expectation was derived")
-    trusted_base = ("Coq 8.16.1 kernel", "extraction (ExtrOcamlBasic only) + ocaml/driver.ml", "vlib generators/comparator, Go overlay harness files",
+    trusted_base = ("Coq 8.16.1 kernel", "extraction (ExtrOcamlBasic only) + ocaml/driver.ml", "vlib generators/comparator, Go overlay harness files "
+                    "(incl. the go/ast scan of TestVerifConsts that lists the reference client's WithHTTPGet / WithHTTPGetMaxURLSize options)",
                     "C03's model of results.go assert (tied to the code by C03's own check)",
                     "modelled not verified: connect-go, grpc-go, net/http, TLS, compression, the JSON/proto codecs (behind the transport hypotheses)")
     assumptions = ("transport hypotheses (C02_Spec.transport_ok): every header/trailer the sender set arrives under its name (case-insensitively) with its values "
@@ -401,11 +419,15 @@ class C02(Prop):
                   "generator (per permutation: a GET case's expectation names the codec), reference/gRPC server handlers and reference/gRPC client "
                   "reports make C03's model of the runner's assert report nothing, for all peer pairs that run the case, under explicit transport hypotheses; that "
                   "the expectation generator and the suite loader never crash on any shape; sampled differential validation of the model (including "
-                  "the transport hypotheses) against the real loader and the real in-process peers on every check.")
+                  "the transport hypotheses) against the real loader and the real in-process peers on every check. The reference client's choice of "
+                  "the HTTP method is part of the model (GET options regenerated from its sources): proved that under the documented set-up a case goes "
+                  "out as GET exactly when it sets use_get_http_method, for every URL length, and that any cap on the URL length breaks that; GET cases "
+                  "with requests of up to 64 KiB run live.")
     level_note = ("Partial: the RPC libraries and HTTP are hypotheses (C02_Spec.transport_ok), validated only by sampling. expectation_met excludes the "
                   "known class fd-immediate-error-multi (proved to FAIL in the model: expectation_unmet_fd_immediate_error) and, for the grpc-go server, "
                   "the zero-request hang class (outside the model: timing). load_total covers expandCases' validations and the expectation generator; "
-                  "protoyaml parsing and expandRequestData (C19) / config expansion (C06, C07) are not re-modelled here.")
+                  "protoyaml parsing and expandRequestData (C19) / config expansion (C06, C07) are not re-modelled here. sent_as_get is a model of "
+                  "connect-go's choice of the method (WithHTTPGet / WithHTTPGetMaxURLSize), compared by the live GET cases, not proved about connect-go.")
     technique = "Coq proof of model-level agreement (composition with C03's assert_iff) + differential model-vs-Go correspondence incl. live in-process runs"
 
     # ---------------------------------------------------------------- classification of known findings
@@ -508,6 +530,8 @@ class C02(Prop):
                     yield ["c02.live", [gc, gs], cf, ts]
         # 4b. Connect GET shapes (reference pair only: Connect protocol), every run; only the config cases they run under
         yield ["c02.live", [0, 0], [c for c in cfg_matrix(tier, 0, 0) if c[1] == 1 and c[3] == 1], get_tests(rng)]
+        # 4c. the same with large request messages (long URLs)
+        yield ["c02.live", [0, 0], [c for c in cfg_matrix(tier, 0, 0) if c[1] == 1 and c[3] == 1], big_get_tests(rng)]
         # 5. known-finding classes, each in a batch of its own
         if not fd_multi:
             fd_multi = [wf_test(rng, "k0", st=FULL, nreq=2, nresp=0, err=True, defs="first")]
